@@ -254,6 +254,13 @@ func vanishHistories() []vanishCase {
 			st2 := append(append([]Step{}, st...), snStep(snref.Connect("cl", ka, false, false)), advStep(kaD/2), snStep(snref.Pingreq("")))
 			out = append(out, vanishCase{name: fmt.Sprintf("sleeps%v-then-active", ds), ka: ka, steps: st2})
 		}
+		// a sleeping client with buffered messages whose wake-up flush hits a send error (one failing / all failing
+		// gateway->client writes), then silence: the failed send must not leave a half-open session behind
+		for _, all := range []time.Duration{0, 1} {
+			st := append(append([]Step{}, base...), snStep(snref.Sleep(3*ka)), pubStep("ab", 1, false, "buffered-1"), pubStep("new/topic", 0, false, "buffered-2"),
+				advStep(kaD), Step{Kind: "fail-sends", D: all}, snStep(snref.Pingreq("cl")))
+			out = append(out, vanishCase{name: fmt.Sprintf("asleep-buffered-send-error(all=%d)", all), ka: ka, steps: st})
+		}
 		// connecting
 		out = append(out, vanishCase{name: "connecting-will", ka: ka, steps: []Step{advStep(time.Second), snStep(snref.Connect("cl", ka, true, true))}})
 	}
@@ -269,7 +276,7 @@ func vanishInsts() []vanishInst {
 	var out []vanishInst
 	for hi, h := range vanishHistories() {
 		for cut := 0; cut <= len(h.steps); cut++ {
-			if cut < len(h.steps) && h.steps[cut].Kind == "advance" {
+			if cut < len(h.steps) && (h.steps[cut].Kind == "advance" || h.steps[cut].Kind == "pub" || (cut > 0 && h.steps[cut-1].Kind == "fail-sends")) {
 				continue // silence begins after a client packet (or at the very start)
 			}
 			out = append(out, vanishInst{hi, cut})
@@ -381,6 +388,7 @@ func judgeC34(g *GWRun) (vs []monitors.V, checked int) {
 
 func TestC34(t *testing.T) {
 	r := rt.Start(t, "C34")
+	r.DeadlockIsViolation = true // a session stuck on a mutex for ever is a half-open session
 	runWorkloads(t, r, []Workload{wlVanish}, func(g *GWRun) ([]monitors.V, int) { return judgeC34(g) })
-	r.Finish(fmt.Sprintf("all %d cases: base histories (active with forwarded and non-forwarded traffic; one sleep of KA/2, KA, 3KA, 65535 s; multi-cycle sleeps with decreasing durations such as 20KA then KA, 65535 then 2KA, each also followed by a return to active; a half-open CONNECT with will) for keep-alive 1, 10 and 60 s, with the client falling silent forever after every client packet (and at the very start); the simulated broker enforces keep-alive (closes after 1.5 x KA without a packet, and after 10 s without CONNECT). Each case is observed for its longest announced sleep + 4 KA + 120 virtual seconds (up to ~66000 s). Oracle: the handler returns by last-client-packet + {5 s connect timeout | 1.5 KA (active/awake) | latest announced sleep duration + 1.5 KA (asleep)} + 100 ms. exhaustive for the stated case list.", len(vanishInsts())), nil)
+	r.Finish(fmt.Sprintf("all %d cases: base histories (active with forwarded and non-forwarded traffic; one sleep of KA/2, KA, 3KA, 65535 s; multi-cycle sleeps with decreasing durations such as 20KA then KA, 65535 then 2KA, each also followed by a return to active; a half-open CONNECT with will; a sleeping client with buffered messages whose wake-up flush runs into a send error) for keep-alive 1, 10 and 60 s, with the client falling silent forever after every client packet (and at the very start); the simulated broker enforces keep-alive (closes after 1.5 x KA without a packet, and after 10 s without CONNECT). Each case is observed for its longest announced sleep + 4 KA + 120 virtual seconds (up to ~66000 s). Oracle: the handler returns by last-client-packet + {5 s connect timeout | 1.5 KA (active/awake) | latest announced sleep duration + 1.5 KA (asleep)} + 100 ms. exhaustive for the stated case list.", len(vanishInsts())), nil)
 }
